@@ -1,11 +1,199 @@
 import SageModel.Proto
+import SageModel.Generated.Consts
+import SageModel.Model.Select
+import SageModel.Model.C18
 
-/-! Driver ops for C18 (stub: no ops yet). -/
+/-! Driver ops for C18.
+
+```
+tmt <plex> ppmLo ppmHi level [n spectrum…] | [n row…]          rows sorted as text on both sides
+    plex     = t6 | t10 | t11 | t16 | t18 | u [n f32…]
+    spectrum = level id(hex) file_id inj(f32) [n (0 | 1 ref(hex))…] [n (mass(f32) intensity(f32))…]
+    row      = key(hex) file_id inj(f32) [n f32…]
+selpeak <p|c|d> lo hi center (0 | 1 offset) [n (mass intensity)…] | 0 | 1 mass intensity
+tmtconsts | 5 × [n f32…] PROTON (0 | 1 ppmLo ppmHi) (0 | 1 c1 c2 level (last|max))
+tmtguard <plex> level | (0 | 1 min_deisotope_mz) [n upper-edge…]
+```
+
+All comparisons are exact (`Proto.exact`): the model performs the same f32 operations in the same
+order as the code; no transcendental function or parallel float reduction is involved.
+-/
 namespace Sage.C18
-open Sage.Proto
+open Sage.Proto Sage.Select
+
+def f32OfBits (b : Nat) : Float32 := Float32.ofBits b.toUInt32
+
+def protonF : Float32 := f32OfBits Sage.Gen.PROTON_bits
+
+def tablesF : Tables Float32 :=
+  ⟨tablesBits.tmt6.map f32OfBits, tablesBits.tmt11.map f32OfBits, tablesBits.tmt18.map f32OfBits⟩
+
+/-- plex with labels as bit patterns -/
+def plexP : P (Plex Nat) := do
+  let t ← tok
+  match t with
+  | "t6" => pure .tmt6
+  | "t10" => pure .tmt10
+  | "t11" => pure .tmt11
+  | "t16" => pure .tmt16
+  | "t18" => pure .tmt18
+  | "u" => do
+    let l ← list nat
+    pure (.user l)
+  | _ => failure
+
+def spectrumP : P (Spectrum Nat) := do
+  let level ← nat
+  let id ← str
+  let fileId ← nat
+  let inj ← nat
+  let precursors ← list (opt str)
+  let peaks ← list (do let m ← nat; let i ← nat; pure (⟨m, i⟩ : Peak Nat))
+  pure { level, id, fileId, injTime := inj, precursors, peaks }
+
+def rowP : P (Row Nat) := do
+  let key ← str
+  let fileId ← nat
+  let inj ← nat
+  let peaks ← list nat
+  pure { specId := key, fileId, injTime := inj, peaks }
+
+def Spectrum.mapNum {α β} (f : α → β) (s : Spectrum α) : Spectrum β :=
+  { level := s.level, id := s.id, fileId := s.fileId, injTime := f s.injTime, precursors := s.precursors,
+    peaks := s.peaks.map fun p => ⟨f p.mass, f p.intensity⟩ }
+
+def renderRow (r : Row Float32) : String :=
+  " ".intercalate [hex (bytesOfStr r.specId), toString r.fileId, outF32 r.injTime, outList outF32 r.peaks]
+
+def renderRows (rows : List (Row Float32)) : String :=
+  let lines := (rows.map renderRow).mergeSort (fun a b => decide (a ≤ b))
+  " ".intercalate (toString lines.length :: lines)
+
+/-- all-or-nothing conversion of bit patterns to exact rationals -/
+def ratsOf (l : List Nat) : Option (List Rat) := l.mapM ratOfF32Bits
+
+def spectrumQ (s : Spectrum Nat) : Option (Spectrum Rat) := do
+  let inj := (ratOfF32Bits s.injTime).getD 0   -- copied through; compared as bits below
+  let peaks ← s.peaks.mapM fun p => do
+    let m ← ratOfF32Bits p.mass
+    let i ← ratOfF32Bits p.intensity
+    if i < 0 then none else pure (⟨m, i⟩ : Peak Rat)
+  pure { level := s.level, id := s.id, fileId := s.fileId, injTime := inj, precursors := s.precursors, peaks }
+
+def rowQ (r : Row Nat) : Option (Row Rat) := do
+  let peaks ← ratsOf r.peaks
+  pure { specId := r.specId, fileId := r.fileId, injTime := (ratOfF32Bits r.injTime).getD 0, peaks }
+
+def labelsBits (p : Plex Nat) : List Nat := reporterMasses tablesBits p
+
+def handleTmt (args impl : List String) : Option Reply := do
+  let (plex, lo, hi, level, spectra) ← run (do
+    let p ← plexP; let lo ← nat; let hi ← nat; let lv ← nat; let s ← list spectrumP
+    pure (p, lo, hi, lv, s)) args
+  let labels := (labelsBits plex).map f32OfBits
+  let rows := quantify protonF (spectra.map (Spectrum.mapNum f32OfBits)) labels
+    (.ppm (f32OfBits lo) (f32OfBits hi)) level
+  let model := renderRows rows
+  -- the executable spec on the implementation's rows (exact rationals, m/z space)
+  let spec : String :=
+    match run (list rowP) impl with
+    | none => if impl == ["panic"] then "bad:panic" else "na"
+    | some irows =>
+      let nExpected := if level == 1 then 0 else (spectra.filter (fun s => s.level == level)).length
+      if irows.length != nExpected then "bad:row_count" else
+      -- pass-through fields, compared as bit patterns: key, file id, injection time
+      let keyOk (s : Spectrum Nat) (r : Row Nat) : Bool :=
+        r.specId == (if level == 2 then s.id else firstRef s) && r.fileId == s.fileId && r.injTime == s.injTime
+      let atLevel := if level == 1 then [] else spectra.filter (fun s => s.level == level)
+      if !matchRows keyOk atLevel irows then "bad:row_key" else
+      if irows.any (fun r => r.peaks.length != (labelsBits plex).length) then "bad:channel_count" else
+      match ratsOf (labelsBits plex), ratOfF32Bits lo, ratOfF32Bits hi, spectra.mapM spectrumQ, irows.mapM rowQ with
+      | some labelsQ, some loQ, some hiQ, some spectraQ, some rowsQ =>
+        if specOk Sage.Gen.PROTON loQ hiQ (guardOf Sage.Gen.PROTON) spectraQ labelsQ level rowsQ then "ok"
+        else "bad:channel_value"
+      | _, _, _, _, _ => "na"   -- NaN/∞/negative intensities: outside the property's domain
+  pure (exact model (" ".intercalate impl) spec)
+
+def tolP : P (Tol Float32) := do
+  let k ← tok
+  let lo ← f32
+  let hi ← f32
+  match k with
+  | "p" => pure (.ppm lo hi)
+  | "c" => pure (.pct lo hi)
+  | "d" => pure (.da lo hi)
+  | _ => failure
+
+instance : BEq Float32 := ⟨fun a b => a.toBits == b.toBits⟩
+
+def handleSel (args impl : List String) : Option Reply := do
+  let (tol, center, offset, peaks) ← run (do
+    let t ← tolP; let c ← f32; let o ← opt f32
+    let ps ← list (do let m ← f32; let i ← f32; pure (⟨m, i⟩ : Peak Float32))
+    pure (t, c, o, ps)) args
+  let r := select peaks center tol offset
+  let model := match r with
+    | none => "0"
+    | some p => s!"1 {outF32 p.mass} {outF32 p.intensity}"
+  let spec : String :=
+    match run (opt (do let m ← f32; let i ← f32; pure (⟨m, i⟩ : Peak Float32))) impl with
+    | none => if impl == ["panic"] then "bad:panic" else "na"
+    | some ir =>
+      -- NaN anywhere or a negative intensity: outside the property's domain (the model must still agree)
+      if peaks.any (fun p => p.intensity.isNaN || p.mass.isNaN || p.intensity < 0) then "na" else
+      let w := window center tol offset
+      if selectOk peaks w.1 w.2 ir then "ok" else "bad:select_definition"
+  pure (exact model (" ".intercalate impl) spec)
+
+/-- the constants of runner.rs as the model states them (tied by `tmtconsts`) -/
+def c1F : Float32 := Float32.ofNat 1
+def c2F : Float32 := Float32.ofScientific 20 true 6
+def ppmLoF : Float32 := (Float32.ofNat 20).neg
+def ppmHiF : Float32 := Float32.ofNat 20
+
+def handleConsts (args impl : List String) : Option Reply := do
+  if !args.isEmpty then failure
+  let plexes : List (Plex Nat) := [.tmt6, .tmt10, .tmt11, .tmt16, .tmt18]
+  let tabs := " ".intercalate (plexes.map fun p => outList toString (labelsBits p))
+  -- the constants of runner.rs the theorems are stated for: Ppm(-20, 20); 1.0 + 20E-6; level 2
+  let model := s!"{tabs} {Sage.Gen.PROTON_bits} 1 {outF32 ppmLoF} {outF32 ppmHiF} 1 {outF32 c1F} {outF32 c2F} 2 max"
+  let r := exact model (" ".intercalate impl)
+  -- the rational constant of the theorems is the f32 value of `1.0 + 20E-6`
+  let factorOk := ratOfF32Bits (c1F + c2F).toBits.toNat == some guardFactorQ
+  pure { r with spec := if r.agree && factorOk then "ok" else "bad:constants" }
+
+def handleGuard (args impl : List String) : Option Reply := do
+  let (plex, level) ← run (do let p ← plexP; let lv ← nat; pure (p, lv)) args
+  let labels := (labelsBits plex).map f32OfBits
+  let m := minDeisotopeMz labels level (c1F + c2F)
+  let edges := labels.map fun l => ((Tol.ppm ppmLoF ppmHiF).bounds l).2
+  let model := outOpt outF32 m ++ " " ++ outList outF32 edges
+  let spec : String :=
+    if level != 2 then "na" else
+    match run (do let m ← opt nat; let e ← list nat; pure (m, e)) impl with
+    | none => if impl == ["panic"] then "bad:panic" else "na"
+    | some (im, _) =>
+      match ratsOf (labelsBits plex) with
+      | none => "na"
+      | some labelsQ =>
+        if labelsQ.isEmpty then "na" else
+        if !labelsQ.any (fun l => decide (0 < l)) then "na" else   -- the theorem needs a positive mass
+        match im with
+        | none => "bad:no_min_deisotope_mz"
+        | some mb =>
+          match ratOfF32Bits mb with
+          | none => "na"
+          | some mq =>
+            -- exact definition of the upper edges vs. the implementation's float, slack = the guard band
+            if protectedOk 20 labelsQ (some mq) (guardOf 0) then "ok" else "bad:reporter_region_unprotected"
+  pure (exact model (" ".intercalate impl) spec)
 
 def handle (op : String) (args impl : List String) : Option Reply :=
   match op with
+  | "tmt" => handleTmt args impl
+  | "selpeak" => handleSel args impl
+  | "tmtconsts" => handleConsts args impl
+  | "tmtguard" => handleGuard args impl
   | _ => none
 
 end Sage.C18
